@@ -47,8 +47,18 @@ class CallMixin:
             if fv.kind == "static":
                 f = self.prog.funcs.get(fv.key)
                 if f is not None:
-                    return self.call_func(f, e, st)
+                    return self.invoke(f, self.eval_args(e, self.T(e["Fun"]), st), st, e)
+            if fv.kind == "bound":
+                return self.call_bound(fv, self.eval_args(e, self.T(e["Fun"]), st), st, e)
         return self.unknown_call("<dynamic>", e, st)
+
+    def call_bound(self, fv, args, st, e):
+        f = self.prog.funcs.get(fv.key)
+        if f is None:
+            return self.unknown_call(fv.key, e, st, evaluated=True)
+        rt = self.T(f.node["Recv"]["List"][0]["Type"])
+        rv = self.receiver_value(fv.node, rt, st)
+        return self.invoke(f, [rv] + args, st, e)
 
     def eval_args(self, e, sigt, st):
         sig = sigt.under().d
@@ -369,81 +379,119 @@ class CallMixin:
         return f.pkg.path + "." + a
 
     def call_func(self, f, e, st):
-        if f.spec and (f.contract is None or not f.contract.of("ensures")) or self.should_inline(f):
-            return self.inline_call(f, e, st)
-        if f.contract is not None and (f.contract.clauses or f.contract.flags):
-            return self.modular_call(f, e, st)
-        pol = self.cfg.get("uncontracted", "havoc")
-        if pol == "inline" or f.full in self.cfg.get("inline", ()):
-            return self.inline_call(f, e, st)
-        return self.unknown_call(f.full, e, st)
+        return self.invoke(f, self.call_values(f, e, st), st, e)
 
-    def bind_params(self, f, e, st, callee_st):
-        """Evaluate receiver + arguments in st and bind them to f's parameter objects in callee_st. Returns arg list."""
+    def invoke(self, f, vals, st, e):
+        """Call f with already-evaluated values (receiver first)."""
+        c = f.contract
+        if c is not None and "abstract" in c.flags:
+            return self.abstract_call(f, vals, st)
+        if (f.spec and (c is None or not c.of("ensures"))) or self.should_inline(f):
+            return self.inline_call(f, e, st, vals)
+        if self.spec and (c is None or not (c.clauses or c.flags)):
+            # a real function used inside a contract clause: evaluate its body (it must be loop-free)
+            return self.inline_call(f, e, st, vals)
+        if c is not None and (c.clauses or c.flags):
+            return self.modular_call(f, e, st, vals)
+        if f.full in self.cfg.get("inline", ()) or self.prog.short(f.full) in self.cfg.get("inline", ()):
+            return self.inline_call(f, e, st, vals)
+        return self.unknown_call(f.full, e, st, evaluated=True)
+
+    def abstract_call(self, f, vals, st):
+        """Abstract (uninterpreted) specification function: a total function of its flattened arguments."""
+        node = f.node
+        sig = self.prog.types[node["sig"]].under().d
+        ptypes = [self.prog.types[p["t"]] for p in sig.get("params") or []]
+        flat = []
+        for v, t in zip(vals, ptypes):
+            flat.extend(flatten(v, t))
+        rtypes = [self.prog.types[r["t"]] for r in sig.get("results") or []]
+        outs = []
+        for ri, rt in enumerate(rtypes):
+            terms = []
+            for li, (_, srt) in enumerate(leaves(rt)):
+                fn = z3.Function("abs_%s#%d.%d" % (self.prog.short(f.full), ri, li), *([x.sort() for x in flat] + [srt]))
+                terms.append(fn(*flat))
+            v, _ = unflatten(rt, terms)
+            outs.append(v)
+        return outs[0] if len(outs) == 1 else TupleV(outs)
+
+    def call_values(self, f, e, st):
+        """Evaluate receiver + arguments of call node e to function f (values in declaration order, receiver first)."""
         node = f.node
         sigt = self.prog.types[node["sig"]]
-        bound = []
+        vals = []
         if node.get("Recv") and node["Recv"].get("List"):
             fun = e["Fun"]
             while fun["k"] == "ParenExpr":
                 fun = fun["X"]
-            rdecl = node["Recv"]["List"][0]
-            rt = self.T(rdecl["Type"])
-            recv_v = self.receiver_value(fun, rt, st)
-            for nm in rdecl.get("Names") or []:
-                if nm["Name"] != "_":
-                    callee_st.vars[nm["obj"]] = recv_v
-            bound.append(recv_v)
-        args = self.eval_args(e, sigt, st)
+            rt = self.T(node["Recv"]["List"][0]["Type"])
+            vals.append(self.receiver_value(fun, rt, st))
+        return vals + self.eval_args(e, sigt, st)
+
+    def bind_values(self, f, vals, callee_st):
+        node = f.node
         i = 0
+        if node.get("Recv") and node["Recv"].get("List"):
+            for nm in node["Recv"]["List"][0].get("Names") or []:
+                if nm["Name"] != "_":
+                    callee_st.vars[nm["obj"]] = vals[0]
+            i = 1
         for fld in node["Type"]["Params"].get("List") or []:
             for nm in fld.get("Names") or [None]:
                 if nm is not None and nm["Name"] != "_":
                     if nm["obj"] in self.escaped:
                         raise Unsupported("callee parameter escapes")
-                    callee_st.vars[nm["obj"]] = args[i]
+                    callee_st.vars[nm["obj"]] = vals[i]
                 i += 1
-        return bound + args
+
+    def bind_params(self, f, e, st, callee_st):
+        vals = self.call_values(f, e, st)
+        self.bind_values(f, vals, callee_st)
+        return vals
 
     def receiver_value(self, fun, rt, st):
-        """fun is the SelectorExpr x.M; produce the receiver of declared type rt (auto & / *)."""
+        """fun is the SelectorExpr x.M; produce the receiver of declared type rt (auto & / *, embedded promotion)."""
         x = fun["X"]
         xt = self.T(x)
         sel = fun.get("sel") or {}
-        path = sel.get("index") or []
-        # walk embedded fields (all but the last index which is the method)
-        v = None
-        cur_t = xt
-        if len(path) > 1:
-            fp = self.field_path(xt, path[:-1])
-            lv = None
-            base = self.ev(x, st)
-            cur = base
-            for (stype, name, ft, via_ptr) in fp:
-                if via_ptr:
-                    cur = HeapLV(cur.oid, stype, name, ft).get(self, st)
-                else:
-                    cur = cur.f[name]
-                cur_t = ft
-            v = cur
+        path = (sel.get("index") or [])[:-1]
         want_ptr = rt.under().k == "ptr"
+        cur_t = xt
+        cur = None
+        if not path and want_ptr and xt.under().k != "ptr":
+            return self.addr_of(x, st)
+        cur = self.ev(x, st)
+        for i in path:
+            if cur_t.under().k == "ptr":
+                stype = cur_t.elem()
+                name, ft, _ = stype.fields()[i]
+                self.oblige(st, "safety", "nil-deref@%s" % self.site(fun), cur.oid != rid(0), fun.get("ln"), "nil pointer dereference (embedded receiver)")
+                if ft.under().k == "struct":
+                    root = getattr(cur, "root", None) or (stype, ())
+                    cur = PtrV(cur.oid, ft, root=(root[0], root[1] + (name,)))
+                    cur_t = self.ptr_type(ft)
+                else:
+                    cur = self.field_lv(cur, stype, name, ft).get(self, st)
+                    cur_t = ft
+            else:
+                name, ft, _ = cur_t.fields()[i]
+                cur = cur.f[name]
+                cur_t = ft
         have_ptr = cur_t.under().k == "ptr"
         if want_ptr == have_ptr:
-            return v if v is not None else self.ev(x, st)
+            return cur
         if have_ptr and not want_ptr:
-            p = v if v is not None else self.ev(x, st)
-            self.oblige(st, "safety", "nil-deref@%s" % self.site(fun), p.oid != rid(0), fun.get("ln"), "nil pointer dereference (method receiver)")
-            return self.deref_lv(p, rt).get(self, st)
-        # want pointer, have addressable value
-        if v is None:
-            return self.addr_of(x, st)
+            self.oblige(st, "safety", "nil-deref@%s" % self.site(fun), cur.oid != rid(0), fun.get("ln"), "nil pointer dereference (method receiver)")
+            return self.deref_lv(cur, rt).get(self, st)
         raise Unsupported("address of embedded value receiver")
 
-    def inline_call(self, f, e, st, args=None):
+    def inline_call(self, f, e, st, vals=None):
         if self.call_depth > 12:
             raise Unsupported("inline depth exceeded at " + f.full)
-        callee_st = st  # shares heap/vars dict; parameter objects are globally unique
-        self.bind_params(f, e, st, callee_st)
+        if vals is None:
+            vals = self.call_values(f, e, st)
+        self.bind_values(f, vals, st)  # parameter objects are globally unique, so the caller's dict can hold them
         return self.run_body(f, f.node, st, e)
 
     def run_body(self, f, node, st, e):
@@ -513,13 +561,14 @@ class CallMixin:
                 i += 1
         return self.run_body(None, node, st, e)
 
-    def modular_call(self, f, e, st):
+    def modular_call(self, f, e, st, vals=None):
         c = f.contract
         node = f.node
+        if vals is None:
+            vals = self.call_values(f, e, st)
         env = State()
         env.mem, env.heap, env.ghost, env.pc = st.mem, st.heap, st.ghost, st.pc
-        args = self.bind_params(f, e, st, env)
-        env.mem, env.heap, env.ghost = st.mem, st.heap, st.ghost
+        self.bind_values(f, vals, env)
         pre = env.fork()
         label_base = "call-%s@%s" % (f.key, self.site(e))
         # preconditions
@@ -612,9 +661,9 @@ class CallMixin:
                     return nm["obj"]
         raise Unsupported("no parameter %s in %s" % (name, f.full))
 
-    def unknown_call(self, callee, e, st):
+    def unknown_call(self, callee, e, st, evaluated=False):
         """No contract and no model: results are unconstrained; the callee is assumed not to write caller-visible memory."""
-        for a in e.get("Args") or []:
+        for a in (e.get("Args") or []) if not evaluated else []:
             try:
                 self.ev(a, st)
             except Unsupported:
@@ -637,59 +686,105 @@ class CallMixin:
         self.type_facts(st, v, t, param=False)
         return v
 
-    def iface_call(self, callee, e, st):
-        ic = self.cfg.get("iface_contracts", {}).get(callee)
-        if ic is not None:
-            f = self.prog.funcs.get(ic)
-            if f is not None and f.contract is not None:
-                return self.modular_iface_call(f, e, st)
-        return self.unknown_call(callee, e, st)
+    def iface_contract(self, callee):
+        """Contract block `//@ iface T.M` of an interface method, looked up by its callee key pkg.(T).M."""
+        i = callee.find(".(")
+        if i < 0:
+            return None
+        pkg = self.prog.packages.get(callee[:i])
+        if pkg is None:
+            return None
+        return pkg.contracts.get(callee[i + 1:])
 
-    def modular_iface_call(self, f, e, st):
-        """Interface method call against the contract attached to spec stub f(recv, args...)."""
+    def method_of(self, dt, mname):
+        """(Func, index path) of method mname in the method set of dynamic type dt, if its body is loaded."""
+        base = dt
+        if base.k == "ptr":
+            base = self.prog.types[base.d["elem"]]
+        while base.k == "alias":
+            base = self.prog.types[base.d["under"]]
+        ms = base.d.get("mset") or {}
+        ent = ms.get(mname)
+        if ent is None:
+            return None, None
+        if ent.get("ptrrecv") and dt.under().k != "ptr":
+            return None, None
+        return self.prog.funcs.get(ent["key"]), ent["index"]
+
+    def adjust_receiver(self, cur, cur_t, path, rt, st, site_node):
+        want_ptr = rt.under().k == "ptr"
+        for i in path:
+            if cur_t.under().k == "ptr":
+                stype = cur_t.elem()
+                name, ft, _ = stype.fields()[i]
+                if ft.under().k == "struct":
+                    root = getattr(cur, "root", None) or (stype, ())
+                    cur = PtrV(cur.oid, ft, root=(root[0], root[1] + (name,)))
+                    cur_t = self.ptr_type(ft)
+                else:
+                    cur = self.field_lv(cur, stype, name, ft).get(self, st)
+                    cur_t = ft
+            else:
+                name, ft, _ = cur_t.fields()[i]
+                cur = cur.f[name]
+                cur_t = ft
+        have_ptr = cur_t.under().k == "ptr"
+        if want_ptr == have_ptr:
+            return cur
+        if have_ptr and not want_ptr:
+            return self.deref_lv(cur, rt).get(self, st)
+        raise Unsupported("address of value receiver in devirtualised call")
+
+    def iface_call(self, callee, e, st):
         fun = e["Fun"]
+        while fun["k"] == "ParenExpr":
+            fun = fun["X"]
         recv = self.ev(fun["X"], st)
-        # bind: first param of the stub is the receiver
-        node = f.node
-        sigt = self.prog.types[node["sig"]]
-        params = []
-        for fld in node["Type"]["Params"].get("List") or []:
-            for nm in fld.get("Names") or [None]:
-                params.append(nm)
-        psig = sigt.under().d.get("params")
-        args = [recv] + [self.ev_assign(a, self.prog.types[psig[i + 1]["t"]], st) for i, a in enumerate(e.get("Args") or [])]
-        env = State()
-        env.mem, env.heap, env.ghost, env.pc = st.mem, st.heap, st.ghost, st.pc
-        for nm, a in zip(params, args):
-            if nm is not None and nm["Name"] != "_":
-                env.vars[nm["obj"]] = a
-        pre = env.fork()
-        c = f.contract
-        for cl in c.of("requires"):
-            g = self.eval_clause(cl, env, results=None, old=pre)
-            self.oblige(st, "precondition", "call-%s@%s:%s" % (f.key, self.site(e), cl["label"]), g, e.get("ln"), cl["text"])
-        post = env
-        for m in self.parse_modifies(f):
-            self.apply_modifies(m, f, post, st)
-        rtypes = [self.prog.types[r["t"]] for r in sigt.under().d.get("results") or []]
-        results = []
-        for i, t in enumerate(rtypes):
-            v = self.fresh_value(t, "%s.r%d" % (f.key, i))
-            self.type_facts(st, v, t, param=False)
-            results.append(v)
-        j = 0
-        for fld in (node["Type"].get("Results") or {}).get("List") or []:
-            for nm in fld.get("Names") or []:
-                if nm["Name"] != "_":
-                    post.vars[nm["obj"]] = results[j]
-                j += 1
-        st.mem, st.heap, st.ghost = post.mem, post.heap, post.ghost
-        for cl in c.of("ensures"):
-            if cl.get("canary"):
-                continue
-            self.assume(st, self.eval_clause(cl, post, results=results, old=pre))
-        self.called_contracts.add(f.full)
-        return results[0] if len(results) == 1 else TupleV(results)
+        mname = callee.rsplit(".", 1)[1]
+        sigt = self.T(fun)
+        args = self.eval_args(e, sigt, st)
+        if not isinstance(recv, IfaceV):
+            return self.unknown_call(callee, e, st, evaluated=True)
+        self.oblige(st, "safety", "nil-iface@%s" % self.site(e), recv.tag != rid(0), e.get("ln"), "method call on nil interface")
+        tag = z3.simplify(recv.tag)
+        if z3.is_bv_value(tag) and 0 < tag.as_long() <= len(self.prog.types):
+            dt = self.prog.types[tag.as_long() - 1]
+            f, path = self.method_of(dt, mname)
+            if f is not None:
+                rt = self.T(f.node["Recv"]["List"][0]["Type"])
+                rv = self.adjust_receiver(self.unbox(recv, dt, st), dt, path[:-1], rt, st, e)
+                return self.invoke(f, [rv] + args, st, e)
+        c = self.iface_contract(callee)
+        if c is not None:
+            if "stub" in c.flags:
+                stub = self.prog.funcs.get(callee[:callee.find(".(")] + "." + c.flags["stub"].strip())
+                if stub is None:
+                    raise Unsupported("interface contract stub %s not found" % c.flags["stub"])
+                self.called_contracts.add(callee)
+                return self.modular_call(stub, e, st, [recv] + args)
+            if "pure" in c.flags:
+                return self.pure_iface(callee, recv, args, sigt, st)
+        return self.unknown_call(callee, e, st, evaluated=True)
+
+    def pure_iface(self, callee, recv, args, sigt, st):
+        sig = sigt.under().d
+        ptypes = [self.prog.types[p["t"]] for p in sig.get("params") or []]
+        flat = [recv.tag, recv.oid]
+        for v, t in zip(args, ptypes):
+            flat.extend(flatten(v, t))
+        rtypes = [self.prog.types[r["t"]] for r in sig.get("results") or []]
+        self.assumptions.add("interface method %s is a deterministic function of the receiver identity and its arguments that writes no memory "
+                             "(receivers are immutable after construction, property C12)" % self.prog.short(callee))
+        outs = []
+        for ri, rt in enumerate(rtypes):
+            terms = []
+            for li, (_, srt) in enumerate(leaves(rt)):
+                fn = z3.Function("pure_%s#%d.%d" % (self.prog.short(callee), ri, li), *([x.sort() for x in flat] + [srt]))
+                terms.append(fn(*flat))
+            v, _ = unflatten(rt, terms)
+            self.type_facts(st, v, rt, param=False)
+            outs.append(v)
+        return outs[0] if len(outs) == 1 else TupleV(outs)
 
     # ------------------------------------------------------------ concurrency stubs (layer 4)
     def trace_event(self, st, name, node):
